@@ -16,7 +16,10 @@ import (
 // cmdSelftest: determinism of the simulator. Every seed is executed at
 // GOMAXPROCS 1, 4 and 16 (fresh processes) and the canonical traces are diffed.
 func cmdSelftest() int {
-	n := envInt("VERIF_SELFTEST_SEEDS", 200)
+	return selftest(envInt("VERIF_SELFTEST_SEEDS", 200))
+}
+
+func selftest(n int) int {
 	seed := uint64(envInt("VERIF_SEED", 1))
 	scratch, err := scratchDir()
 	if err != nil {
@@ -27,8 +30,8 @@ func cmdSelftest() int {
 	if err != nil {
 		return fatal2("build failed:\n%v", err)
 	}
-	env := &check.Env{Bins: &world.Bins{Bin: bres.Bin, RaceBin: bres.RaceBin, Sources: bres.Sources}, Base: scratch}
-	p := gen.Preset("C06", true, nil)
+	env := &check.Env{Bins: &world.Bins{Bin: bres.Bin, RaceBin: bres.RaceBin, Sources: bres.Sources}, Base: scratch, Known: loadKnown().classifyAny}
+	presets := []*gen.Params{gen.Preset("C06", true, nil), gen.Preset("C20", true, nil), gen.Preset("C10", false, nil)}
 	type res struct {
 		i     int
 		diffs string
@@ -43,7 +46,7 @@ func cmdSelftest() int {
 			for i := range jobs {
 				var traces []string
 				for _, procs := range []string{"1", "4", "16", "4"} {
-					w := gen.World(scen.Mix(seed, 777), i, p)
+					w := gen.World(scen.Mix(seed, 777), i, presets[i%len(presets)])
 					for _, l := range w.Lifetimes {
 						l.Env["GOMAXPROCS"] = procs
 					}
